@@ -20,6 +20,11 @@ SUBJECTS = {
     "F23": "release HTTP/2 senders when the send task stops",
     "F24": "survive a priority tree that schedules a stream",
     "F25": "keep HTTP/2 senders waiting until the stream buffer",
+    "F27": "reject CR, LF and NUL in application-supplied header bytes",
+    "F28": "refuse http.response.push once the response is complete",
+    "F29": "refuse a second websocket.close",
+    "F30": "validate the extra headers of websocket.accept",
+    "F31": "do not restart the idle timer on a task group that is shutting down",
     "F22": "report the client's close code",
 }
 log = subprocess.run(["git", "-C", "/repo", "log", "--format=%h %s"], capture_output=True, text=True).stdout.splitlines()
